@@ -153,8 +153,8 @@ Section First.
     apply (first_body_sound p (Hl p (or_introl eq_refl)) (body p) []); auto. apply derives_refl.
   Qed.
 
-  Lemma first_pass_sound st : first_sound st -> first_sound (first_pass G st).
-  Proof. apply first_fold_sound, incl_refl. Qed.
+  Lemma first_pass_sound l st : incl l (prods G) -> first_sound st -> first_sound (first_pass l st).
+  Proof. apply first_fold_sound. Qed.
 
   (** ** extension and closure at a fixpoint *)
   Lemma first_body_extends X b st : extends st (first_body X b st).
@@ -165,7 +165,7 @@ Section First.
     - apply add_terms_extends.
   Qed.
 
-  Lemma first_pass_extends st : extends st (first_pass G st).
+  Lemma first_pass_extends l st : extends st (first_pass l st).
   Proof. apply (fold_extends (fun st p => first_body (head p) (body p) st)). intros; apply first_body_extends. Qed.
 
   Lemma first_body_fixed X b st :
@@ -193,9 +193,10 @@ Section First.
       (forall a, fstr st (body p) a -> In (head p, Some a) st)
       /\ (nstr st (body p) -> In (head p, None) st).
 
-  Lemma first_fixed_closed st : first_pass G st = st -> first_closed st.
+  Lemma first_fixed_closed l st :
+    (forall p, In p (prods G) -> In p l) -> first_pass l st = st -> first_closed st.
   Proof.
-    intros Hfix p Hp. apply first_body_fixed.
+    intros Hl Hfix p Hp. apply Hl in Hp. apply first_body_fixed.
     apply (fold_fixed (fun st p => first_body (head p) (body p) st)
              (fun s q => first_body_extends (head q) (body q) s) _ _ Hfix p Hp).
   Qed.
@@ -298,11 +299,19 @@ Section First.
     apply IH; auto. intros x Hx; apply Hl; now right.
   Qed.
 
-  Lemma first_table_terminates : first_table G <> None.
+  Variable O : oracle.
+  Hypothesis HO : orders_ok G (o_first O).
+
+  Let passes := fun i => first_pass (o_first O i).
+  Let passes_ext : forall i s, extends s (passes i s) := fun i s => first_pass_extends _ s.
+  Let HO1 : forall j, incl (o_first O j) (prods G) := fun j p Hp => proj1 (HO j p) Hp.
+  Let HO2 : forall j p, In p (prods G) -> In p (o_first O j) := fun j p Hp => proj2 (HO j p) Hp.
+
+  Lemma first_table_terminates : first_table G O <> None.
   Proof.
     unfold first_table.
-    apply (sat_loop_terminates (first_pass G) first_pass_extends first_universe).
-    - intros x Hn Hi. apply first_fold_inv; auto. apply incl_refl.
+    apply (sat_loop_terminates passes passes_ext first_universe).
+    - intros j x Hn Hi. apply first_fold_inv; auto.
     - constructor.
     - intros x [].
     - unfold first_universe, first_fuel, fact. rewrite prod_length, map_length. simpl. rewrite map_length.
@@ -313,28 +322,29 @@ Section First.
   Qed.
 
   Lemma first_table_props st :
-    first_table G = Some st -> first_sound st /\ first_closed st /\ incl st first_universe.
+    first_table G O = Some st -> first_sound st /\ first_closed st /\ incl st first_universe.
   Proof.
     intros E. unfold first_table in E. split; [|split].
-    - eapply (sat_loop_inv (first_pass G) first_sound); [apply first_pass_sound | | exact E]. intros A x [].
-    - apply first_fixed_closed. eapply sat_loop_fix; [apply first_pass_extends | exact E].
-    - apply (sat_loop_inv (first_pass G) (fun x => NoDup x /\ incl x first_universe) _ _ _
-               (fun x H => first_fold_inv (prods G) x (incl_refl _) (proj1 H) (proj2 H))
-               (conj (NoDup_nil _) (fun x (H : In x []) => match H with end)) E).
+    - eapply (sat_loop_inv passes first_sound); [| | exact E].
+      + intros j x. apply first_pass_sound, HO1.
+      + intros A x [].
+    - destruct (sat_loop_fix passes passes_ext _ _ _ _ E) as [j Hj].
+      apply (first_fixed_closed (o_first O j)); [apply HO2 | exact Hj].
+    - assert (HP : NoDup st /\ incl st first_universe); [|apply HP].
+      eapply (sat_loop_inv passes (fun x => NoDup x /\ incl x first_universe)); [| | exact E].
+      + intros j x H. apply (first_fold_inv (o_first O j) x (HO1 j) (proj1 H) (proj2 H)).
+      + split; [constructor | intros x []].
   Qed.
 
   (** ** the theorem on the table *)
   Theorem first_table_exact :
-    exists st, first_table G = Some st /\
+    exists st, first_table G O = Some st /\
       (forall alpha a, fstr st alpha a <-> first_sem G alpha a) /\
       (forall alpha, nstr st alpha <-> nullable_str G alpha).
   Proof.
-    destruct (first_table G) as [st|] eqn:E; [|now destruct first_table_terminates].
-    exists st. split; [reflexivity|]. unfold first_table in E.
-    assert (Hs : first_sound st).
-    { eapply (sat_loop_inv (first_pass G) first_sound); [apply first_pass_sound | | exact E]. intros A x []. }
-    assert (Hc : first_closed st).
-    { apply first_fixed_closed. eapply sat_loop_fix; [apply first_pass_extends | exact E]. }
+    destruct (first_table G O) as [st|] eqn:E; [|now destruct first_table_terminates].
+    exists st. split; [reflexivity|].
+    destruct (first_table_props st E) as [Hs [Hc _]].
     split.
     - intros alpha a. split; [now apply fstr_sound | now apply fstr_complete].
     - intros alpha. split; [now apply nstr_sound | now apply nstr_complete].
